@@ -323,6 +323,19 @@ Section ConvertStructure.
   Qed.
 End ConvertStructure.
 
+(* the batched form used by the correspondence stream is convert, magnitude by magnitude *)
+Lemma convert_many_spec A fixed vs a b :
+  convert_many A fixed vs a b =
+  map (fun v => if fixed then convert_fixed A v a b else convert A v a b) vs.
+Proof.
+  unfold convert_many. apply eq_sym.
+  erewrite map_ext; [|intros v; rewrite convert_fixed_eq, convert_eq; reflexivity].
+  unfold convert_fixed_with, convert_with. rewrite <- !resolve_unit_eq.
+  destruct (resolve_unit a) as [f|e].
+  - destruct (resolve_unit b) as [t|e]; destruct fixed; reflexivity.
+  - destruct fixed; reflexivity.
+Qed.
+
 Theorem aliases_same_unit : forall A u i j (v : T A) x,
   In u all_units -> In i (u_ids u) -> In j (u_ids u) -> dup_listed i = false -> dup_listed j = false ->
   resolve_unit i = resolve_unit j /\
@@ -348,4 +361,211 @@ Lemma self_identity_float_refuted :
 Proof.
   exists witness_unit, (num_of_bits 0x40fe240c9fbe76c9). split; [vm_compute; reflexivity|].
   vm_compute. discriminate.
+Qed.
+
+(* ------------------------------------------------------------------ (1) the table is well formed *)
+Lemma table_wf_ok : forallb unit_wf all_units = true.
+Proof. vm_cast_no_check (eq_refl true). Qed.
+Theorem table_wellformed : forall u, In u all_units -> unit_wf u = true.
+Proof. intros u Hu. pose proof table_wf_ok as H. rewrite forallb_forall in H. exact (H u Hu). Qed.
+
+Lemma temp_probes_ok_true : temp_probes_ok = true.
+Proof. vm_cast_no_check (eq_refl true). Qed.
+
+Lemma temp_literals_ok : forallb literal_ok [lit_273_15; lit_32; lit_5; lit_9] = true.
+Proof. vm_cast_no_check (eq_refl true). Qed.
+
+(* ------------------------------------------------------------------ (1) prefix ratios, exact over Q *)
+Lemma prefix_ratio_metric_ok :
+  forallb (fun h : unit * unit * Z => let '(u, b, k) := h in Qeq_bool (coef_dec u) (coef_dec b * Qpow10 k))
+          (prefix_hits metric_prefixes) = true.
+Proof. vm_cast_no_check (eq_refl true). Qed.
+Theorem prefix_ratio_metric : forall u b k,
+  In (u, b, k) (prefix_hits metric_prefixes) -> (coef_dec u == coef_dec b * Qpow10 k)%Q.
+Proof.
+  intros u b k H. pose proof prefix_ratio_metric_ok as P. rewrite forallb_forall in P.
+  specialize (P _ H). cbv beta iota in P. apply Qeq_bool_iff. exact P.
+Qed.
+
+Lemma prefix_ratio_binary_ok :
+  forallb (fun h : unit * unit * Z => let '(u, b, k) := h in Qeq_bool (coef_exact u) (coef_exact b * Qpow2 k))
+          (prefix_hits binary_prefixes) = true.
+Proof. vm_cast_no_check (eq_refl true). Qed.
+Theorem prefix_ratio_binary : forall u b k,
+  In (u, b, k) (prefix_hits binary_prefixes) -> (coef_exact u == coef_exact b * Qpow2 k)%Q.
+Proof.
+  intros u b k H. pose proof prefix_ratio_binary_ok as P. rewrite forallb_forall in P.
+  specialize (P _ H). cbv beta iota in P. apply Qeq_bool_iff. exact P.
+Qed.
+
+(* ------------------------------------------------------------------ (3) exact-rational laws *)
+Lemma qx_eq_refl x : qx_eq x x.
+Proof. destruct x; simpl; auto. reflexivity. Qed.
+Lemma qx_eq_sym x y : qx_eq x y -> qx_eq y x.
+Proof. destruct x, y; simpl; auto. intros H; symmetry; exact H. Qed.
+Lemma qx_eq_trans x y z : qx_eq x y -> qx_eq y z -> qx_eq x z.
+Proof. destruct x, y, z; simpl; auto; try contradiction. intros H1 H2. rewrite H1. exact H2. Qed.
+
+Lemma qzero_iff q : qzero q = true <-> (q == 0)%Q.
+Proof. unfold qzero. apply Qeq_bool_iff. Qed.
+Lemma qzero_false q : qzero q = false <-> ~ (q == 0)%Q.
+Proof.
+  rewrite <- qzero_iff. destruct (qzero q); split; intros; try congruence; auto.
+Qed.
+Lemma qzero_proper x y : (x == y)%Q -> qzero x = qzero y.
+Proof.
+  intros H. destruct (qzero x) eqn:Ex, (qzero y) eqn:Ey; auto.
+  - apply qzero_iff in Ex. apply qzero_false in Ey. rewrite H in Ex. contradiction.
+  - apply qzero_iff in Ey. apply qzero_false in Ex. rewrite H in Ex. contradiction.
+Qed.
+
+(* the operations respect qx_eq in their variable argument *)
+Lemma qx_add_proper x y c : qx_eq x y -> qx_eq (qx_add x c) (qx_add y c).
+Proof. destruct x, y, c; simpl; auto. intros H; rewrite H; reflexivity. Qed.
+Lemma qx_sub_proper x y c : qx_eq x y -> qx_eq (qx_sub x c) (qx_sub y c).
+Proof. destruct x, y, c; simpl; auto. intros H; rewrite H; reflexivity. Qed.
+Lemma qx_mul_proper x y c : qx_eq x y -> qx_eq (qx_mul x c) (qx_mul y c).
+Proof. destruct x, y, c; simpl; auto. intros H; rewrite H; reflexivity. Qed.
+Lemma qx_div_proper_l x y c : qx_eq x y -> qx_eq (qx_div x c) (qx_div y c).
+Proof.
+  destruct x, y, c; simpl; auto; try contradiction; try reflexivity.
+  intros H. destruct (qzero q1); simpl; auto. rewrite H; reflexivity.
+Qed.
+Lemma qx_div_proper_r c x y : qx_eq x y -> qx_eq (qx_div (Fin c) x) (qx_div (Fin c) y).
+Proof.
+  destruct x, y; simpl; auto; try contradiction; try reflexivity.
+  intros H. rewrite (qzero_proper _ _ H). destruct (qzero q0); simpl; auto. rewrite H; reflexivity.
+Qed.
+Lemma qx_is_zero_proper x y : qx_eq x y -> qx_is_zero x = qx_is_zero y.
+Proof. destruct x, y; simpl; auto; try contradiction. apply qzero_proper. Qed.
+
+Lemma tempfn_proper f x y : qx_eq x y -> qx_eq (tempfn_apply qa f x) (tempfn_apply qa f y).
+Proof.
+  intros H. destruct f; simpl; auto using qx_add_proper, qx_sub_proper, qx_mul_proper, qx_div_proper_l.
+Qed.
+
+Lemma to_base_proper u x y : qx_eq x y -> qx_eq (convert_to_base qa u x) (convert_to_base qa u y).
+Proof.
+  intros H. unfold convert_to_base. destruct (u_conv u); simpl.
+  - apply qx_mul_proper; auto.
+  - rewrite (qx_is_zero_proper _ _ H). destruct (qx_is_zero y); simpl; auto. apply qx_div_proper_r; auto.
+  - apply tempfn_proper; auto.
+Qed.
+Lemma from_base_proper u x y : qx_eq x y -> qx_eq (convert_from_base qa u x) (convert_from_base qa u y).
+Proof.
+  intros H. unfold convert_from_base. destruct (u_conv u); simpl.
+  - apply qx_div_proper_l; auto.
+  - rewrite (qx_is_zero_proper _ _ H). destruct (qx_is_zero y); simpl; auto. apply qx_div_proper_r; auto.
+  - apply tempfn_proper; auto.
+Qed.
+
+(* what the laws need from a unit: a non-zero coefficient / an inverse pair of temperature functions *)
+Definition wfQ (u : unit) : Prop :=
+  match u_conv u with
+  | Linear c | Reciprocal c => ~ (lit_Q c == 0)%Q
+  | Temperature t f => inverse_pair t f = true
+  end.
+Lemma unit_wf_wfQ u : unit_wf u = true -> wfQ u.
+Proof.
+  unfold unit_wf, wfQ. destruct (u_conv u); auto;
+    intros H; apply andb_true_iff in H; destruct H as [_ H]; apply negb_true_iff in H;
+    apply qzero_false; exact H.
+Qed.
+
+Lemma lit9 : lit_Q lit_9 = (9 # 1)%Q. Proof. reflexivity. Qed.
+Lemma lit5 : lit_Q lit_5 = (5 # 1)%Q. Proof. reflexivity. Qed.
+Lemma lit32 : lit_Q lit_32 = (32 # 1)%Q. Proof. reflexivity. Qed.
+Lemma lit27315 : lit_Q lit_273_15 = (27315 # 100)%Q. Proof. reflexivity. Qed.
+
+(* the temperature functions of an inverse pair undo each other, exactly *)
+Lemma temp_inverse t f x : inverse_pair t f = true ->
+  qx_eq (tempfn_apply qa f (tempfn_apply qa t x)) x /\ qx_eq (tempfn_apply qa t (tempfn_apply qa f x)) x.
+Proof.
+  destruct t, f; simpl; try discriminate; intros _; destruct x as [q|]; simpl; auto;
+    rewrite ?lit9, ?lit5, ?lit32, ?lit27315; simpl; split; try reflexivity; field.
+Qed.
+
+Lemma recip_inv c v : ~ (c == 0)%Q ->
+  qx_eq ((fun w => if qx_is_zero w then Inf else qx_div (Fin c) w)
+          ((fun w => if qx_is_zero w then Inf else qx_div (Fin c) w) v)) v.
+Proof.
+  intros W. destruct v as [x|]; cbn -[Qeq Qdiv qzero].
+  - destruct (qzero x) eqn:Zx; cbn -[Qeq Qdiv qzero].
+    + apply qzero_iff in Zx. symmetry. exact Zx.
+    + assert (Hd : qzero (c / x) = false).
+      { apply qzero_false. apply qzero_false in Zx. intros E.
+        apply W. rewrite <- (Qmult_div_r c x Zx). rewrite E. ring. }
+      rewrite Hd. cbn -[Qeq Qdiv qzero]. 
+      apply qzero_false in Zx. field. split; auto.
+  - assert (Z0 : qzero 0 = true) by reflexivity. rewrite Z0. exact I.
+Qed.
+Lemma lin_inv1 c v : ~ (c == 0)%Q -> qx_eq (qx_div (qx_mul v (Fin c)) (Fin c)) v.
+Proof.
+  intros W. destruct v as [x|]; cbn -[Qeq Qdiv Qmult qzero]; auto.
+  apply qzero_false in W. rewrite W. cbn -[Qeq Qdiv Qmult qzero]. field. apply qzero_false; exact W.
+Qed.
+Lemma lin_inv2 c v : ~ (c == 0)%Q -> qx_eq (qx_mul (qx_div v (Fin c)) (Fin c)) v.
+Proof.
+  intros W. destruct v as [x|]; cbn -[Qeq Qdiv Qmult qzero]; auto.
+  apply qzero_false in W. rewrite W. cbn -[Qeq Qdiv Qmult qzero]. field. apply qzero_false; exact W.
+Qed.
+Lemma from_to u v : wfQ u -> qx_eq (convert_from_base qa u (convert_to_base qa u v)) v.
+Proof.
+  unfold wfQ, convert_from_base, convert_to_base. destruct (u_conv u) as [c|c|t f]; intros W.
+  - apply (lin_inv1 (lit_Q c) v W).
+  - apply (recip_inv (lit_Q c) v W).
+  - apply (temp_inverse t f v W).
+Qed.
+Lemma to_from u b : wfQ u -> qx_eq (convert_to_base qa u (convert_from_base qa u b)) b.
+Proof.
+  unfold wfQ, convert_from_base, convert_to_base. destruct (u_conv u) as [c|c|t f]; intros W.
+  - apply (lin_inv2 (lit_Q c) b W).
+  - apply (recip_inv (lit_Q c) b W).
+  - apply (temp_inverse t f b W).
+Qed.
+
+Lemma resolve_unit_In s u : resolve_unit s = UOk u -> In u all_units.
+Proof. rewrite resolve_unit_eq. apply resolve_in_In. Qed.
+Lemma resolved_wfQ s u : resolve_unit s = UOk u -> wfQ u.
+Proof. intros H. apply unit_wf_wfQ, table_wellformed, (resolve_unit_In s u H). Qed.
+
+(* converting a unit to itself is the identity, exactly *)
+Theorem self_identity_Q : forall a b u v,
+  resolve_unit a = UOk u -> resolve_unit b = UOk u ->
+  exists r, convert qa v a b = UOk r /\ qx_eq r v.
+Proof.
+  intros a b u v Ha Hb. rewrite (same_category_converts qa v a b u u Ha Hb eq_refl).
+  eexists. split; [reflexivity|]. apply from_to. exact (resolved_wfQ a u Ha).
+Qed.
+
+(* converting there and back returns the original value, exactly *)
+Theorem there_and_back_Q : forall a b ua ub v,
+  resolve_unit a = UOk ua -> resolve_unit b = UOk ub -> u_cat ua = u_cat ub ->
+  exists r1 r2, convert qa v a b = UOk r1 /\ convert qa r1 b a = UOk r2 /\ qx_eq r2 v.
+Proof.
+  intros a b ua ub v Ha Hb Hc.
+  exists (convert_from_base qa ub (convert_to_base qa ua v)).
+  exists (convert_from_base qa ua (convert_to_base qa ub (convert_from_base qa ub (convert_to_base qa ua v)))).
+  split; [exact (same_category_converts qa v a b ua ub Ha Hb Hc)|].
+  split; [exact (same_category_converts qa _ b a ub ua Hb Ha (eq_sym Hc))|].
+  eapply qx_eq_trans.
+  - apply from_base_proper. apply to_from. exact (resolved_wfQ b ub Hb).
+  - apply from_to. exact (resolved_wfQ a ua Ha).
+Qed.
+
+(* converting A to B to C equals converting A to C, exactly *)
+Theorem composition_Q : forall a b c ua ub uc v,
+  resolve_unit a = UOk ua -> resolve_unit b = UOk ub -> resolve_unit c = UOk uc ->
+  u_cat ua = u_cat ub -> u_cat ub = u_cat uc ->
+  exists r1 r2 r3, convert qa v a b = UOk r1 /\ convert qa r1 b c = UOk r2 /\
+                   convert qa v a c = UOk r3 /\ qx_eq r2 r3.
+Proof.
+  intros a b c ua ub uc v Ha Hb Hc Hab Hbc.
+  exists (convert_from_base qa ub (convert_to_base qa ua v)).
+  exists (convert_from_base qa uc (convert_to_base qa ub (convert_from_base qa ub (convert_to_base qa ua v)))).
+  exists (convert_from_base qa uc (convert_to_base qa ua v)).
+  split; [exact (same_category_converts qa v a b ua ub Ha Hb Hab)|].
+  split; [exact (same_category_converts qa _ b c ub uc Hb Hc Hbc)|].
+  split; [exact (same_category_converts qa v a c ua uc Ha Hc (eq_trans Hab Hbc))|].
+  apply from_base_proper. apply to_from. exact (resolved_wfQ b ub Hb).
 Qed.
